@@ -1010,8 +1010,6 @@ def inexact_features(d, acc):
             acc.add("positional-shorter")
         if k == "tupleOf":
             pass
-        if k in ("mapOf", "mapAny") and (d.get("minItems") is not None or d.get("maxItems") is not None):
-            acc.add("map-size")
         if k == "mapOf" and d["key"].get("k") == "string" and (d["key"].get("pattern") or d["key"].get("minLength")
                                                                 or d["key"].get("maxLength")):
             acc.add("map-key-constraint")
@@ -1486,12 +1484,19 @@ def oracle(case, impl, model):
     mi = iter(model.get("insts", []))
     for r in impl.get("insts", []):
         m = next(mi, {}) if "x" in r else {}
+        # (a serialization whose JSON text differs from the Python document — non-string Map keys — is not the
+        # document the theorem speaks about)
         if r.get("valid") is False and model.get("inFrag") and model.get("refsFaithful") and m.get("inRegion") \
-                and m.get("renameSafe", True) and not uses_mixin_enum(case):
+                and m.get("renameSafe", True) and not uses_mixin_enum(case) and "doc_raw" not in r:
             fails.append(("admits:inside-the-proved-region",
                           "schema_admits_partial covers this (class, instance), yet the real schema rejects the real "
                           f"serialization: {r['error']['msg']}; doc " + json.dumps(r["doc"])[:200]))
-        if r.get("valid") is False and model.get("refsFaithful") is not False:
+        if r.get("valid") is False and model.get("refsFaithful") is not False and "doc_raw" in r \
+                and r["error"].get("validator") == "minProperties":
+            # Python keys that are different (1 and "1") become one JSON member name
+            fails.append(("admits:map-size-key-collision",
+                          f"a sized Map whose keys collide in JSON: {r['error']['msg']} at {'/'.join(r['error']['path'])}; doc " + json.dumps(r["doc"])[:200]))
+        elif r.get("valid") is False and model.get("refsFaithful") is not False:
             fails.append((f"admits:{admit_key(r['error'], case['cls'], r.get('x'), case.get('mapper'), uses_mixin_enum(case), renaming(case), case.get('own_mappers'))}",
                           f"serialization of a valid instance is rejected by the schema: {r['error']['msg']} at {'/'.join(r['error']['path'])}; doc " + json.dumps(r["doc"])[:200]))
         if "valid_crash" in r:
